@@ -10,6 +10,7 @@ import (
 	"math/bits"
 	"sync"
 	"sync/atomic"
+	"time"
 
 	"github.com/Tom-Johnston/mamba/graph"
 )
@@ -416,12 +417,14 @@ func runC01(c *Ctx) {
 	c01CrossRep(c, 6)
 	c01Regular(c, 8, []int{0, 1, 2, 3, 4, 5, 6, 7})
 	c01Regular(c, 9, []int{0, 2, 4, 6, 8})
-	c01Hard(c)
-	c01Unions(c)
-	c01RegularUnions(c)
-	c01Reps(c)
-	c01Big(c)
-	c01Huge(c)
+	for _, part := range []struct {
+		name string
+		f    func(*Ctx)
+	}{{"hard", c01Hard}, {"unions", c01Unions}, {"regular-unions", c01RegularUnions}, {"reps", c01Reps}, {"big", c01Big}, {"huge", c01Huge}} {
+		t0 := time.Now()
+		part.f(c)
+		c.Bound("seconds_"+part.name, int(time.Since(t0).Seconds()))
+	}
 	if c.Thorough() {
 		c01Exhaust(c, 8, "dense", classCounts[8])
 		c01Exhaust(c, 7, "sparse", classCounts[7])
